@@ -202,14 +202,17 @@ theorem externals_classified :
 configurations; that is justified only if a sandboxed interpreter always carries the flag:
 it is written `true` by `NewZlispSandbox` and nowhere else, otherwise only copied from another
 interpreter (`Clone`, `Duplicate`), its address is never taken, and every place that
-allocates a `Zlisp` other than the constructor copies it. On a tree without such a flag both
-tables are empty and no edge carries label 1 or 2. -/
+allocates a `Zlisp` other than the constructor copies it. On a tree without such a flag no edge
+may carry label 1 or 2. -/
 def flagProtocolOk : Bool :=
-  CallGraph.flagAssignSites.all (fun s =>
-    (s.2 == "constTrue" && s.1 == "zygo.NewZlispSandbox") || s.2 == "copy")
-  && CallGraph.zlispAllocSites.all (fun s => s.2 == "copiesFlag" || s.1 == "zygo.NewZlispWithFuncs")
-  && (CallGraph.flagAssignSites.contains ("zygo.NewZlispSandbox", "constTrue")
-      || CallGraph.adj.all (fun e => e.2.1 &&& 3 == 0))
+  if CallGraph.sandboxFlag == "" then
+    -- no flag in this tree: then no edge may claim to depend on one
+    CallGraph.adj.all (fun e => e.2.1 &&& 3 == 0)
+  else
+    CallGraph.flagAssignSites.all (fun s =>
+      (s.2 == "constTrue" && s.1 == "zygo.NewZlispSandbox") || s.2 == "copy")
+    && CallGraph.zlispAllocSites.all (fun s => s.2 == "copiesFlag" || s.1 == "zygo.NewZlispWithFuncs")
+    && CallGraph.flagAssignSites.contains ("zygo.NewZlispSandbox", "constTrue")
 
 theorem flag_protocol : flagProtocolOk = true := by decide +kernel
 
